@@ -62,7 +62,10 @@ def items(draw):
 
 
 def strategy(tier):
-    return st.fixed_dictionaries({'history': st.lists(items(), min_size=1, max_size=3)})
+    # rpt_mtu: MTU of the routes that carry the status reports themselves (None: unlimited; 90/110: a report of about
+    # 120 octets leaves as fragments)
+    return st.fixed_dictionaries({'history': st.lists(items(), min_size=1, max_size=3),
+                                  'rpt_mtu': st.sampled_from([None, None, 90, 110])})
 
 
 def enumerate_cases(tier):
@@ -72,6 +75,8 @@ def enumerate_cases(tier):
 
 
 def pinned_cases():
+    yield 'fragmented-report', {'rpt_mtu': 100, 'history': [{'outcome': 'forward', 'mask': 31, 'rpt': 1, 'src': ['dtn', '//src/'],
+                                                             'ts': [1000, 1], 'pcrc': 1, 'ycrc': 2, 'plen': 20, 'ext': [], 'other_flags': 0}]}
     yield 'forward-frag-all-flags', {'history': [{'outcome': 'forward-frag', 'mask': 31, 'rpt': 1, 'src': ['dtn', '//src/'],
                                                   'ts': [1000, 1], 'pcrc': 2, 'ycrc': 2, 'plen': 900, 'ext': ['hop'], 'other_flags': 0}]}
 
@@ -122,12 +127,51 @@ def execute(case):
                                     ('^dtn://del/', 'delete')],
                    tx_routes=[('^dtn://fwd/', 'dtn://next/', None), ('^dtn://reports/', 'dtn://rp/', None),
                               ('^ipn:', 'dtn://rp/', None)])
+    for route in node.config.tx_route_table[1:]:
+        route.mtu = case.get('rpt_mtu')
+    if case.get('rpt_mtu'):
+        out.label('report-route-mtu')
     seen = set()
     for index, item in enumerate(case['history']):
         one(node, item, index, out, seen)
     for esc in node.escapes():
         out.fail('escape:%s@%s' % (esc.exc_type, esc.frame), 'exception escaped a main-loop callback: %s: %s' % (esc.exc_type, esc.exc_msg[:120]))
     return out
+
+
+def _join_own_fragments(decoded, out):
+    ''' Bundles the node originated (its reports) may have left as fragments over a route with a small MTU: put each
+    back together (payload ranges must tile, every fragment must carry the same flags apart from nothing) so that it
+    can be judged as the report it is.  Other bundles pass through unchanged. '''
+    from vlib import ref9171 as r
+    groups = {}
+    rest = []
+    for d in decoded:
+        pri = d['primary']
+        if pri['frag'] is not None and r.eid_text(pri['src']) == NODE:
+            groups.setdefault((tuple(pri['ts']),), []).append(d)
+        else:
+            rest.append(d)
+    for key, frags in groups.items():
+        frags.sort(key=lambda d: d['primary']['frag'][0])
+        total = frags[0]['primary']['frag'][1]
+        data = b''
+        ok = True
+        for d in frags:
+            if d['primary']['frag'][0] != len(data) or d['primary']['frag'][1] != total:
+                ok = False
+            data += bytes.fromhex(r.payload_block(d)['data'])
+            if (d['primary']['flags'] ^ frags[0]['primary']['flags']):
+                out.fail('report-fragments-differ-in-flags', 'fragments of one report carry different bundle flags')
+        if not ok or len(data) != total:
+            out.fail('report-fragments-do-not-tile', 'a report left as %d fragments that do not tile its %d octets' % (len(frags), total))
+            continue
+        whole = {'primary': dict(frags[0]['primary'], frag=None, flags=frags[0]['primary']['flags'] & ~r.FLAG_FRAGMENT),
+                 'blocks': [dict(b) for b in frags[0]['blocks']], '_fragments': len(frags), '_crc_ok': all(r.all_crc_ok(d) for d in frags)}
+        whole['blocks'][-1] = dict(whole['blocks'][-1], data=data.hex())
+        rest.append(whole)
+        out.label('report-sent-as-fragments')
+    return rest
 
 
 def one(node, item, index, out, seen):
@@ -166,6 +210,16 @@ def one(node, item, index, out, seen):
             new.append(r.decode(data))
         except r.RefError as exc:
             out.fail('emitted-not-wellformed', 'octets handed to the CL (%s) are not an RFC 9171 bundle: %s' % (outcome, exc))
+    new = _join_own_fragments(new, out)
+    # what this node originates in these scenarios are its status reports: each must be flagged as an administrative
+    # record (as a whole and, when it left in fragments, on every fragment)
+    for d in new:
+        if r.eid_text(d['primary']['src']) == NODE and not d['primary']['flags'] & r.FLAG_ADMIN:
+            out.fail('report-not-flagged-admin', 'a bundle originated by the node (source %s, to %s, %s) is not flagged as an '
+                     'administrative record (flags 0x%x)' % (NODE, r.eid_text(d['primary']['dest']),
+                                                           'sent as %d fragments' % d['_fragments'] if d.get('_fragments') else 'sent whole',
+                                                           d['primary']['flags']))
+            d['primary']['flags'] |= r.FLAG_ADMIN     # judge the rest of it as the report it is
     reports = [d for d in new if d['primary']['flags'] & r.FLAG_ADMIN]
     data_bundles = [d for d in new if not d['primary']['flags'] & r.FLAG_ADMIN]
     delivered = len(node.records()) > n_rec
@@ -202,7 +256,7 @@ def one(node, item, index, out, seen):
             out.fail('report-destination', 'status report addressed to %s, report-to is %s' % (r.eid_text(pri['dest']), r.eid_text(rpt_to)))
         if pri['flags'] & (r.FLAG_RPT_RECEPTION | r.FLAG_RPT_FORWARD | r.FLAG_RPT_DELIVERY | r.FLAG_RPT_DELETION):
             out.fail('report-requests-reports', 'the status report itself requests status reports (flags 0x%x)' % pri['flags'])
-        if not r.all_crc_ok(rep):
+        if not (rep['_crc_ok'] if '_crc_ok' in rep else r.all_crc_ok(rep)):
             out.fail('report-crc', 'status report has an invalid CRC')
         if pri['crc_type'] == 0 or r.payload_block(rep)['crc_type'] == 0:
             out.label('report-without-crc')
